@@ -33,7 +33,7 @@ type TaskCase struct {
 	Allow      bool   `json:"allow"`
 	Before     string `json:"before"` // "", "ok", "fail"
 	After      string `json:"after"`
-	Cond       string `json:"cond"` // "", "true", "false"
+	Cond       string `json:"cond"`                  // "", "true", "false"
 	CondStatus int    `json:"cond_status,omitempty"` // exit status of a false condition (default 1)
 	Pipeline   bool   `json:"pipeline"`
 }
@@ -263,10 +263,15 @@ func main() {
 			Cap  *capCase  `json:"cap"`
 			To   *toCase   `json:"to"`
 			Cp   *cpCase   `json:"cp"`
+			Hist *histCase `json:"hist"`
 		}
 		common.ReadReplay(&rf)
 		bad := false
-		if rf.Cp != nil {
+		if rf.Hist != nil {
+			k, d := runHistory(*rf.Hist)
+			fmt.Printf("history %s: %s %s\n", *rf.Hist, k, d)
+			bad = k != "" && (target != "C07" || k == "error")
+		} else if rf.Cp != nil {
 			d := runCancelProc(*rf.Cp)
 			fmt.Printf("cancel-proc case %+v: %s\n", *rf.Cp, d)
 			bad = d != ""
@@ -414,6 +419,10 @@ func main() {
 				goto done
 			}
 		}
+	case "history2": // k<=2 commands, histories of 2 and 3 runs
+		historyUnit(res, target, 2, 3)
+	case "history3": // thorough: k<=3 commands, histories of up to 3 runs
+		historyUnit(res, target, 3, 3)
 	case "capture":
 		captureUnit(res)
 	case "timeout", "timeout-serial":
@@ -581,6 +590,7 @@ type toCase struct {
 	Shape     string `json:"shape"`    // sleep, busy, trap, fast, share
 	Position  string `json:"position"` // "1","2","3","before","after"
 	Allow     bool   `json:"allow"`
+	Prior     bool   `json:"prior,omitempty"` // the command before the overrunning one exits non-zero (tolerated: allow_failure)
 }
 
 func runTimeout(c toCase) string {
@@ -634,9 +644,15 @@ func runTimeout(c toCase) string {
 		case "after":
 			t.After = []string{mark("a") + "; " + over}
 			want = []string{"b", "m1", "m2", "m3", "a"}
+			if c.Prior {
+				t.Commands[1] += "; exit 3"
+			}
 		default:
 			p := int(c.Position[0] - '0')
 			t.Commands[p-1] = mark(fmt.Sprintf("m%d", p)) + "; " + over
+			if c.Prior && p >= 2 {
+				t.Commands[p-2] += "; exit 3"
+			}
 			want = []string{"b"}
 			for i := 1; i <= p; i++ {
 				want = append(want, fmt.Sprintf("m%d", i))
@@ -687,7 +703,7 @@ func timeoutUnit(res *common.Result) {
 			return false
 		}
 		res.Evaluations++
-		distinct[fmt.Sprint(c.Shape, c.Position, c.Allow)] = true
+		distinct[fmt.Sprint(c.Shape, c.Position, c.Allow, c.Prior)] = true
 		if res.Evaluations%5 == 1 {
 			res.AddSample(c)
 		}
@@ -707,7 +723,7 @@ func timeoutUnit(res *common.Result) {
 			}
 		}
 		parts := strings.SplitN(d, ":", 3)
-		return res.AddViolation(common.Violation{Property: "C13", Key: fmt.Sprintf("C13:%s|shape=%s|position=%s|allow=%v|timeout=%dms", parts[1], c.Shape, c.Position, c.Allow, c.TimeoutMs), Desc: fmt.Sprintf("%+v: %s", c, parts[2]), Config: c},
+		return res.AddViolation(common.Violation{Property: "C13", Key: fmt.Sprintf("C13:%s|shape=%s|position=%s|allow=%v|prior=%v|timeout=%dms", parts[1], c.Shape, c.Position, c.Allow, c.Prior, c.TimeoutMs), Desc: fmt.Sprintf("%+v: %s", c, parts[2]), Config: c},
 			map[string]interface{}{"harness": "taskrun", "mode": "plain", "property": "C13", "to": c})
 	}
 	timeouts := []int{100, 1000}
@@ -733,6 +749,10 @@ func timeoutUnit(res *common.Result) {
 					if do(toCase{TimeoutMs: ms, Shape: shape, Position: pos, Allow: allow}) {
 						return
 					}
+					// a tolerated failure of the preceding command must not change anything
+					if allow && (pos == "2" || pos == "3" || pos == "after") && do(toCase{TimeoutMs: ms, Shape: shape, Position: pos, Allow: true, Prior: true}) {
+						return
+					}
 				}
 			}
 		}
@@ -745,7 +765,21 @@ func timeoutUnit(res *common.Result) {
 type cliCase struct {
 	Targets []string `json:"targets"` // ok, fail, pok, pfail, unknown
 	Status  int      `json:"status"`
-	Via     string   `json:"via"` // "" (root action) or "run"
+	Via     string   `json:"via"`             // "" (root action) or "run"
+	Flags   int      `json:"flags,omitempty"` // index into cliFlagSets
+}
+
+// cliFlagSets: global flags that must not change which targets run or the exit status. Entry 0 is the default.
+var cliFlagSets = [][]string{
+	{"--output", "raw"},
+	{"--output", "raw", "--summary=false"},
+	{"--output", "raw", "--quiet"},
+	{"--output", "raw", "--debug"},
+	{"--output", "prefixed"},
+	{"--output", "cockpit"},
+	{"--raw"},
+	{"--quiet", "--summary=false"},
+	{"--output", "raw", "RUNFLAG", "--summary=false"}, // the run command's own flag
 }
 
 func runCli(c cliCase) string {
@@ -775,12 +809,23 @@ pipelines:
       depends_on: [s1]
 `, trace, c.Status)
 	os.WriteFile(filepath.Join(dir, "tasks.yaml"), []byte(yaml), 0o644)
-	args := []string{"-c", filepath.Join(dir, "tasks.yaml"), "--output", "raw"}
+	args := []string{"-c", filepath.Join(dir, "tasks.yaml")}
+	var runFlags []string
+	for i, f := range cliFlagSets[c.Flags] {
+		if f == "RUNFLAG" {
+			runFlags = cliFlagSets[c.Flags][i+1:]
+			break
+		}
+		args = append(args, f)
+	}
 	if c.Via == "run" {
 		args = append(args, "run")
+		args = append(args, runFlags...)
 	}
 	if c.Via == "run-task" {
-		args = append(args, "run", "task")
+		args = append(args, "run")
+		args = append(args, runFlags...)
+		args = append(args, "task")
 	}
 	args = append(args, c.Targets...)
 	cmd := exec.Command(os.Getenv("VERIF_TASKCTL"), args...)
@@ -833,6 +878,7 @@ pipelines:
 }
 
 func cliUnit(res *common.Result, maxLen int, statuses []int) {
+	flagLen := maxLen - 1 // non-default flag sets: target sequences one shorter than the maximum
 	alphabet := []string{"ok", "fail", "pok", "pfail", "unknown"}
 	var idx int64
 	distinct := map[string]bool{}
@@ -865,34 +911,42 @@ func cliUnit(res *common.Result, maxLen int, statuses []int) {
 				vias = append(vias, "run-task") // `taskctl run task T...` accepts tasks only
 			}
 			for _, via := range vias {
-				for _, s := range statuses {
-					hasFail := false
-					for _, t := range cur {
-						if t == "fail" || t == "pfail" {
-							hasFail = true
-						}
-					}
-					if !hasFail && s != statuses[0] {
+				for fl := range cliFlagSets {
+					if fl > 0 && len(cur) > flagLen {
 						continue
 					}
-					idx++
-					if !common.Mine(idx) {
+					if len(cliFlagSets[fl]) > 2 && cliFlagSets[fl][2] == "RUNFLAG" && via == "" {
 						continue
 					}
-					c := cliCase{Targets: append([]string{}, cur...), Status: s, Via: via}
-					res.Evaluations++
-					distinct[strings.Join(cur, ",")] = true
-					if res.Evaluations%37 == 1 {
-						res.AddSample(c)
-					}
-					if d := runCli(c); d != "" {
-						if strings.HasPrefix(d, "infra:") {
-							fmt.Fprintln(os.Stderr, d)
-							os.Exit(2)
+					for _, s := range statuses {
+						hasFail := false
+						for _, t := range cur {
+							if t == "fail" || t == "pfail" {
+								hasFail = true
+							}
 						}
-						if res.AddViolation(common.Violation{Property: "C07", Key: fmt.Sprintf("C07:cli|%v|%s|%d", c.Targets, c.Via, c.Status), Desc: fmt.Sprintf("taskctl %s %v: %s", c.Via, c.Targets, d), Config: c},
-							map[string]interface{}{"harness": "taskrun", "mode": "plain", "property": "C07", "needs_taskctl": true, "cli": c}) {
-							return true
+						if !hasFail && s != statuses[0] {
+							continue
+						}
+						idx++
+						if !common.Mine(idx) {
+							continue
+						}
+						c := cliCase{Targets: append([]string{}, cur...), Status: s, Via: via, Flags: fl}
+						res.Evaluations++
+						distinct[strings.Join(cur, ",")+fmt.Sprint(fl)] = true
+						if res.Evaluations%37 == 1 {
+							res.AddSample(c)
+						}
+						if d := runCli(c); d != "" {
+							if strings.HasPrefix(d, "infra:") {
+								fmt.Fprintln(os.Stderr, d)
+								os.Exit(2)
+							}
+							if res.AddViolation(common.Violation{Property: "C07", Key: fmt.Sprintf("C07:cli|%v|%s|%d|%v", c.Targets, c.Via, c.Status, cliFlagSets[c.Flags]), Desc: fmt.Sprintf("taskctl %v %s %v: %s", cliFlagSets[c.Flags], c.Via, c.Targets, d), Config: c},
+								map[string]interface{}{"harness": "taskrun", "mode": "plain", "property": "C07", "needs_taskctl": true, "cli": c}) {
+								return true
+							}
 						}
 					}
 				}
